@@ -5,6 +5,7 @@ from checks import memcommon
 from checks.c03 import want_rep
 
 BLK = 1 << 16
+VSBX_BASE0, VSBX_STRIDE = 0x6a0000000000, 0x400030000      # harness/vsbx.hpp (the stride is deliberately not a multiple of 2^32)
 STORE_POS = ["cell", "arrel", "field", "arg"]
 LIBS = {0: ("libA", ["f0", "f1", "f2"]), 1: ("libB", ["f2", "f0"])}
 
@@ -29,8 +30,12 @@ def oracle(toks, line):
         if pos in ("cellnull", "argnull"):
             return line == "ok rep=0"
         if tgt != "null" and off_of(sb, tgt) is None:
-            return None      # a pointer into another sandbox: application error, not judged
-        r = 0 if tgt == "null" else off_of(sb, tgt)
+            # a pointer into ANOTHER live sandbox, stored in (or passed to) sandbox sb: it is translated relative to sb --
+            # the sandbox that owns the cell / receives the argument -- and never relative to the sandbox it points into
+            other, off = int(tgt[2]), int(tgt[4:])
+            r = (VSBX_BASE0 + other * VSBX_STRIDE + off - (VSBX_BASE0 + sb * VSBX_STRIDE)) % (1 << 32)
+        else:
+            r = 0 if tgt == "null" else off_of(sb, tgt)
         if pos in STORE_POS:
             return line == f"ok rep={r}"
         if pos == "arrwhole":
